@@ -110,6 +110,82 @@ rc::Gen<Case> gen() {
   });
 }
 
+// ---------------------------------------------------------------- instantiations and states outside the 22-type recipe layer
+// count-min with weight types narrower / other than the default 8-byte one (the image stores weights as W), and frequent-items sketches
+// right after a purge that removed every counter (non-empty by weight, no item tracked). Same round-trip contract.
+template <typename W> void cm_typed(const Case& cs, const char* wname) {
+  const uint8_t h = static_cast<uint8_t>(1 + cs.get("a", 0) % 5);
+  const uint32_t b = static_cast<uint32_t>(3 + cs.get("b", 0) % 40);
+  const unsigned hdr = static_cast<unsigned>(cs.get("hdr", 0) % 24);
+  const uint64_t n = static_cast<uint64_t>(cs.get("n", 0)) % 200;
+  datasketches::count_min_sketch<W> sk(h, b);
+  vf::Rng r(static_cast<uint64_t>(cs.get("rnd", 1)));
+  for (uint64_t i = 0; i < n; ++i) sk.update(static_cast<uint64_t>(r.below(60)), static_cast<W>(1 + r.below(3)));
+  std::ostringstream who; who << "count_min_sketch<" << wname << "> " << int(h) << "x" << b << " after " << n << " updates";
+  auto bytes = sk.serialize();
+  std::ostringstream os(std::ios::binary); sk.serialize(os);
+  const std::string simg = os.str();
+  VF_CHECK(bytes.size() == sk.get_serialized_size_bytes(), "advertised-size", who.str() << ": get_serialized_size_bytes " << sk.get_serialized_size_bytes() << " but the byte image has " << bytes.size() << " bytes");
+  VF_CHECK(simg.size() == bytes.size() && std::memcmp(simg.data(), bytes.data(), bytes.size()) == 0, "bytes-vs-stream", who.str() << ": byte-vector image (" << bytes.size() << " bytes) and stream image (" << simg.size() << " bytes) differ");
+  auto hb = sk.serialize(hdr);
+  VF_CHECK(hb.size() == hdr + bytes.size() && std::memcmp(hb.data() + hdr, bytes.data(), bytes.size()) == 0, "header-image", who.str() << ": serialize(header " << hdr << ") is not " << hdr << " reserved bytes followed by the image (" << hb.size() << " vs " << hdr + bytes.size() << " bytes)");
+  auto same = [&](const datasketches::count_min_sketch<W>& x, const char* path) {
+    VF_CHECK(x.get_num_hashes() == sk.get_num_hashes() && x.get_num_buckets() == sk.get_num_buckets() && x.get_total_weight() == sk.get_total_weight() && x.is_empty() == sk.is_empty(), "observe-" + std::string(path), who.str() << ": restored (" << path << ") configuration / total weight differ");
+    VF_CHECK(std::equal(x.begin(), x.end(), sk.begin()), "observe-" + std::string(path), who.str() << ": restored (" << path << ") cells differ");
+    for (uint64_t v = 0; v < 60; ++v) VF_CHECK(x.get_estimate(v) == sk.get_estimate(v), "observe-" + std::string(path), who.str() << ": restored (" << path << ") estimate of " << v << " differs");
+  };
+  uint8_t* blk = static_cast<uint8_t*>(malloc(bytes.size()));
+  std::memcpy(blk, bytes.data(), bytes.size());
+  try { auto r1 = datasketches::count_min_sketch<W>::deserialize(blk, bytes.size()); same(r1, "bytes"); } catch (...) { free(blk); throw; }
+  free(blk);
+  std::istringstream is(simg + std::string("SENTINEL"), std::ios::binary);
+  auto r2 = datasketches::count_min_sketch<W>::deserialize(is);
+  VF_CHECK(is.good() && static_cast<size_t>(is.tellg()) == simg.size(), "stream-consumed", who.str() << ": stream reader stopped at " << is.tellg() << ", image ends at " << simg.size());
+  same(r2, "stream");
+  vf::label(std::string("edge:count-min<") + wname + ">");
+  if (n > 0) vf::nontrivial();
+}
+template <typename T> void fi_all_purged(const Case& cs, const char* tname, std::function<T(uint64_t)> item) {
+  const uint8_t lg = static_cast<uint8_t>(3 + cs.get("a", 0) % 4);
+  const uint64_t cap = (3ull << lg) / 4, w = 1 + static_cast<uint64_t>(cs.get("b", 0)) % 9;
+  const uint64_t extra = static_cast<uint64_t>(cs.get("n", 0)) % 3;   // 0: stop right after the purge that empties the map
+  datasketches::frequent_items_sketch<T> sk(lg, lg);
+  for (uint64_t i = 0; i <= cap; ++i) sk.update(item(i), w);
+  for (uint64_t i = 0; i < extra; ++i) sk.update(item(1000 + i), 1);
+  std::ostringstream who; who << "frequent_items_sketch<" << tname << "> lg_max " << int(lg) << " after " << cap + 1 << " equal weights (+" << extra << "): active " << sk.get_num_active_items() << " total " << sk.get_total_weight();
+  auto bytes = sk.serialize();
+  std::ostringstream os(std::ios::binary); sk.serialize(os);
+  const std::string simg = os.str();
+  VF_CHECK(bytes.size() == sk.get_serialized_size_bytes(), "advertised-size", who.str() << ": get_serialized_size_bytes " << sk.get_serialized_size_bytes() << " but the byte image has " << bytes.size() << " bytes");
+  VF_CHECK(simg.size() == bytes.size() && std::memcmp(simg.data(), bytes.data(), bytes.size()) == 0, "bytes-vs-stream", who.str() << ": byte-vector image (" << bytes.size() << " bytes) and stream image (" << simg.size() << " bytes) differ");
+  auto same = [&](const datasketches::frequent_items_sketch<T>& x, const char* path) {
+    VF_CHECK(x.get_total_weight() == sk.get_total_weight() && x.get_maximum_error() == sk.get_maximum_error() && x.get_num_active_items() == sk.get_num_active_items() && x.is_empty() == sk.is_empty(), "observe-" + std::string(path),
+             who.str() << ": restored (" << path << ") total " << x.get_total_weight() << " max error " << x.get_maximum_error() << " active " << x.get_num_active_items());
+    for (uint64_t i = 0; i <= cap; ++i) VF_CHECK(x.get_lower_bound(item(i)) == sk.get_lower_bound(item(i)) && x.get_upper_bound(item(i)) == sk.get_upper_bound(item(i)), "observe-" + std::string(path), who.str() << ": restored (" << path << ") bounds of item " << i << " differ");
+  };
+  auto r1 = datasketches::frequent_items_sketch<T>::deserialize(bytes.data(), bytes.size()); same(r1, "bytes");
+  std::istringstream is(simg + std::string("SENTINEL"), std::ios::binary);
+  auto r2 = datasketches::frequent_items_sketch<T>::deserialize(is);
+  VF_CHECK(is.good() && static_cast<size_t>(is.tellg()) == simg.size(), "stream-consumed", who.str() << ": stream reader stopped at " << is.tellg() << ", image ends at " << simg.size());
+  same(r2, "stream");
+  vf::label(sk.get_num_active_items() == 0 && sk.get_total_weight() > 0 ? "edge:frequent-items-every-counter-purged" : "edge:frequent-items-after-purge");
+  vf::nontrivial();
+}
+void prop_edge(const Case& cs) {
+  switch (cs.get("kind", 0) % 6) {
+    case 0: cm_typed<float>(cs, "float"); break;
+    case 1: cm_typed<int32_t>(cs, "int32"); break;
+    case 2: cm_typed<uint32_t>(cs, "uint32"); break;
+    case 3: cm_typed<double>(cs, "double"); break;
+    case 4: fi_all_purged<int64_t>(cs, "int64", [](uint64_t i) { return static_cast<int64_t>(i) - 2; }); break;
+    default: fi_all_purged<std::string>(cs, "string", [](uint64_t i) { return "item-" + std::to_string(i) + std::string(i % 23, 'z'); }); break;
+  }
+}
+rc::Gen<Case> gen_edge() {
+  using namespace vf;
+  return make_case({{"kind", pick({0, 1, 2, 3, 4, 5})}, {"a", range(0, 63)}, {"b", range(0, 1 << 10)}, {"n", range(0, 199)}, {"hdr", pick({0, 1, 4, 7, 8, 13})}, {"rnd", range(1, 1 << 20)}}, rc::gen::just(std::vector<Op>{}));
+}
+
 }  // namespace
 
 int main(int argc, char** argv) {
@@ -120,5 +196,5 @@ int main(int argc, char** argv) {
                          "identical re-serialization (or same decoded content for hash-table layouts), wrapped views, and identical observation after continuing "
                          "the same updates/merges on original and restored; non-trivial = state beyond exact mode or header > 0 or non-empty continue suffix; "
                          "distinct = distinct case text",
-                         {{"roundtrip", gen, prop, 1.0}});
+                         {{"roundtrip", gen, prop, 1.0}, {"edge_states", gen_edge, prop_edge, 0.02, 100}});
 }
